@@ -188,11 +188,15 @@ def liveInStmt : Stmt → VSet → VSet
   | .badAssign xs e, lo => vunion (vdiff lo (vofList xs)) (usedVars e)
   | .ret es _, _ => usedVarsL es
   | .ite c t e, lo => vunion (vunion (liveInBlock t lo) (liveInBlock e lo)) (usedVars c)
-  | .for_ i _ _ body, lo =>
-    -- prev = None; curr = live_out; while curr != prev: prev = curr; curr = visit_block(body, prev) - {i}
-    fixIter (fun prev => vdiff (liveInBlock body prev) [i]) fixFuel lo
+  | .for_ i _ bound body, lo =>
+    -- prev = None; curr = live_out
+    -- while curr != prev: prev = curr; curr = (visit_block(body, prev) - {i}) | live_out
+    -- return curr | _used_vars(stmt.iter)
+    vunion (fixIter (fun prev => vunion (vdiff (liveInBlock body prev) [i]) lo) fixFuel lo) (usedVars bound)
   | .while_ c body, lo =>
-    fixIter (fun prev => vunion (liveInBlock body prev) (usedVars c)) fixFuel (vunion lo (usedVars c))
+    -- curr = live_out | cond_vars; while …: curr = visit_block(body, prev) | cond_vars | live_out
+    fixIter (fun prev => vunion (vunion (liveInBlock body prev) (usedVars c)) lo) fixFuel
+      (vunion lo (usedVars c))
   | .brk c, lo => vunion lo (usedVars c)
   | .skip, lo => lo
   | .unsupported, lo => lo
@@ -200,6 +204,17 @@ def liveInBlock : List Stmt → VSet → VSet
   | [], lo => lo
   | s :: ss, lo => liveInStmt s (liveInBlock ss lo)
 end
+
+/-- The live-out set the body of a loop was last visited with (the fixpoint `curr` of the `while curr != prev`
+iteration): this is `live_out(s)` for the statements of the body.  For a `for` loop it does not contain the
+uses of the loop bound, which are added to the loop's live-in afterwards. -/
+def loopBodyLo : Stmt → VSet → VSet
+  | .for_ i _ _ body, lo =>
+    fixIter (fun prev => vunion (vdiff (liveInBlock body prev) [i]) lo) fixFuel lo
+  | .while_ c body, lo =>
+    fixIter (fun prev => vunion (vunion (liveInBlock body prev) (usedVars c)) lo) fixFuel
+      (vunion lo (usedVars c))
+  | _, lo => lo
 
 mutual
 /-- `exposed_uses.visit(stmt, live_out)`. -/
